@@ -382,3 +382,9 @@ Print Assumptions C13_day_range_end_on_gap_refuted.
 
 Example C13_grouped_nonvacuous : _ := MetricsP2.grouped_hypotheses_satisfiable.
 Example C13_calendar_aligned_nonvacuous : _ := MetricsP2.windows_hypotheses_satisfiable.
+
+(* ---- tie C: the stepping loops of _period_windows_with_dt as the code has them ---- *)
+From CG Require Import Gen.Source Proofs.GenEq10.
+Example C13_source_windows_are_model : _ := g_period_windows_dt_eq.
+Print Assumptions C13_source_windows_are_model.
+Example C13_source_windows_loop_is_model : _ := g_period_windows_dt_loop.
